@@ -272,7 +272,7 @@ func (m *vfModel) checkBinding(ctx *vfReqCtx, in *vfIntent, iss *vfIssued, cred 
 	// the authenticated (normalised) user: the credential the model accepts; failing that, any valid credential presented
 	subject := m.norm(cr.URLUser)
 	if cred != nil {
-		subject = cred.Subject
+		subject = m.norm(cred.Subject) // the normalised user, whatever spelling the session happens to carry
 	} else {
 		for _, c := range m.credsOf(ctx) {
 			if c.Valid {
